@@ -263,6 +263,13 @@ def inner_types():
 WRONG = [None, 'x', [None], {'k': None}, 2.5, b'b']      # data the inner type may refuse: the condition must then be irrelevant
 
 PLACEMENTS = ['top', 'list_elem', 'dict_value', 'optional', 'dc_field']
+CUSTOM_PLACEMENTS = ['custom_top', 'custom_list_elem', 'custom_class_field']
+
+
+def placements_for(iname):
+    if iname in ('int', 'float', 'list_int'):
+        return PLACEMENTS + CUSTOM_PLACEMENTS
+    return PLACEMENTS if iname == 'any' else ['top', 'list_elem']
 
 
 def plan(tier, seed):
@@ -289,7 +296,44 @@ def place(pane, AT, placement):
     if placement == 'dc_field':
         C = grammar.pin(type('CondHolder', (pane.PaneBase,), {'__annotations__': {'f': AT}, '__module__': 'mc.generated'}))
         return C, (lambda v: {'f': v}), (lambda r: r.f)
+    if placement == 'custom_top':          # the call carries custom= handlers that cover the annotated type's inner conversion
+        return AT, (lambda v: v), (lambda r: r)
+    if placement == 'custom_list_elem':
+        return grammar.pin(t.List[AT]), (lambda v: [v, v]), (lambda r: r[1])
+    if placement == 'custom_class_field':  # ... or the enclosing class does
+        C = grammar.pin(type('CondHolderC', (pane.PaneBase,), {'__annotations__': {'f': AT}, '__module__': 'mc.generated'}, custom=_times10(pane)))
+        return C, (lambda v: {'f': v}), (lambda r: r.f)
     raise KeyError(placement)
+
+
+_T10: t.List[t.Any] = []
+
+
+def _times10(pane):
+    """custom handlers for int and float: the value times ten (and back) - the condition must see what THEY produce."""
+    if not _T10:
+        from pane.converters import Converter
+        from pane.errors import ParseInterrupt, WrongTypeError
+
+        class Times10(Converter):
+            def __init__(self, ty):
+                self.ty = ty
+
+            def expected(self, plural=False):
+                return f"{self.ty.__name__} (x10)"
+
+            def try_convert(self, val):
+                if type(val) in (int, float) and type(val) is not bool:
+                    return self.ty(val * 10)
+                raise ParseInterrupt()
+
+            def collect_errors(self, val):
+                return None if type(val) in (int, float) else WrongTypeError(self.expected(), val)
+
+            def into_data(self, val):
+                return val / 10 if self.ty is float else val // 10
+        _T10.append({int: Times10(int), float: Times10(float)})
+    return _T10[0]
 
 
 def find_cond_leaf(tree):
@@ -310,6 +354,8 @@ def eval_cell(pane, res, ei, e, iname, placement, tier, only_vi=None):
     AT = make_type(pane, inner, conds)
     T, wrap, unwrap = place(pane, AT, placement)
     data = grid + (WRONG if placement == 'top' else WRONG[:2])
+    kw = {'custom': _times10(pane)} if placement in ('custom_top', 'custom_list_elem') else {}
+    kw_inner = {'custom': _times10(pane)} if placement.startswith('custom') else {}
     for vi, v in enumerate(data):
         if only_vi is not None and vi != only_vi:
             continue
@@ -317,7 +363,7 @@ def eval_cell(pane, res, ei, e, iname, placement, tier, only_vi=None):
         res['states'] += 1
         # inner conversion alone
         try:
-            x = pane.from_data(values.fresh(v), inner)
+            x = pane.from_data(values.fresh(v), inner, **kw_inner)
             inner_ok = True
         except ConvertError:
             inner_ok, x = False, None
@@ -327,7 +373,7 @@ def eval_cell(pane, res, ei, e, iname, placement, tier, only_vi=None):
         if placement == 'optional' and v is None:
             continue
         try:
-            out = ('ok', unwrap(pane.from_data(wrap(values.fresh(v)), T)))
+            out = ('ok', unwrap(pane.from_data(wrap(values.fresh(v)), T, **kw)))
         except ConvertError as err:
             out = ('rej', err)
         except Exception as err:  # noqa
@@ -361,7 +407,7 @@ def eval_cell(pane, res, ei, e, iname, placement, tier, only_vi=None):
                                    f"{desc}: returned {core.srepr(out[1], 40)}, the inner conversion alone gives {core.srepr(x, 40)}", cell, cost)
                 continue
             try:
-                d1, d2 = pane.into_data(out[1], AT), pane.into_data(out[1], inner)
+                d1, d2 = pane.into_data(out[1], AT, **kw_inner), pane.into_data(out[1], inner, **kw_inner)
                 same = values.typed_eq(d1, d2) or repr(d1) == repr(d2)
             except Exception:  # noqa: a serialisation failure of the inner type itself is C05's business, not a condition effect
                 same = True
@@ -369,7 +415,7 @@ def eval_cell(pane, res, ei, e, iname, placement, tier, only_vi=None):
             if not same:
                 core.add_violation(res, {'kind': 'serialisation_sees_condition', **sig},
                                    f"{desc}: into_data with the condition gives {core.srepr(d1, 40)}, without it {core.srepr(d2, 40)}", cell, cost)
-        elif inner_ok and placement in ('top', 'list_elem', 'dict_value', 'dc_field'):
+        elif inner_ok and placement in ('top', 'list_elem', 'dict_value', 'dc_field', 'custom_top', 'custom_list_elem', 'custom_class_field'):
             leaf = find_cond_leaf(out[1].tree)
             if leaf is None:
                 core.add_violation(res, {'kind': 'no_condition_leaf', **sig},
@@ -399,7 +445,7 @@ def run_shard(shard, tier):
             # (same-name shard) a violation here may need the conditions met before it: carry them in the cell for the replay
             before = {id(v) for lst in res['violations'].values() for v in lst}
         for iname in inner_types():
-            for placement in (PLACEMENTS if iname in ('int', 'float', 'list_int', 'any') else ['top', 'list_elem']):
+            for placement in placements_for(iname):
                 try:
                     eval_cell(pane, res, ei, e, iname, placement, tier)
                 except Exception as err:  # noqa
@@ -429,7 +475,7 @@ def replay(cell):
     for pei, pe in cell.get('prelude') or []:
         scratch = core.new_result()
         for iname in inner_types():
-            for placement in (PLACEMENTS if iname in ('int', 'float', 'list_int', 'any') else ['top', 'list_elem']):
+            for placement in placements_for(iname):
                 try:
                     eval_cell(pane, scratch, pei, pe, iname, placement, 'quick')
                 except Exception:  # noqa
